@@ -327,7 +327,7 @@ def run(chk):
     for st, _b in K.stmts(hp, "data = EMPTY"):
         blk = PC._block_of(st)
         prior = blk[: blk.index(st)]
-        if any(M.contains(p, "data[start_pos:]") and isinstance(p, ast.Assign) and "self._tail" in norm.raw(p.targets[0]) for p in prior):
+        if any(M.contains(p, "data[$S:]") and isinstance(p, ast.Assign) and "self._tail" in norm.raw(p.targets[0]) for p in prior):
             chk.ok("C03.save", st, "unconsumed input `data[start_pos:]` is stored in self._tail before the local buffer is dropped")
             n_save += 1
         elif not K.loop_ancestors(st):
